@@ -1,21 +1,36 @@
 #!/usr/bin/env python3
-"""matrix.py <dir-of-mutation-dirs> [props...]: run all registered (or given) property checks on each patch, print detection matrix"""
+"""matrix.py <dir-of-mutation-dirs> [--write-expectations]: run every registered property check on each patch applied to a
+scratch copy of /repo; print the detection matrix; optionally write <dir>/expectations.json and <dir>/README.md"""
 import os, sys, json
 sys.path.insert(0, "/verif")
 from plsa import seedtest
 from plsa.rules import REGISTRY
 base = sys.argv[1]
-props = sys.argv[2:] or sorted(REGISTRY)
+write = "--write-expectations" in sys.argv
+props = sorted(REGISTRY)
+exp = {}
 for d in sorted(os.listdir(base)):
     p = os.path.join(base, d, "patch.diff")
     if not os.path.exists(p):
         continue
+    meta = json.load(open(os.path.join(base, d, "meta.json"))) if os.path.exists(os.path.join(base, d, "meta.json")) else {}
     try:
         res = seedtest.run_on_patch(p, props)
     except Exception as e:
         print(d, "ERROR", str(e)[:300].replace("\n", " "))
         continue
-    hits = {pr: new for pr, (rc, new, known) in res.items() if new}
-    broken = [pr for pr, (rc, new, known) in res.items() if rc == 2]
-    print(d, "DETECTED-BY" if hits else "missed", {k: v[:2] for k, v in hits.items()}, ("UNANALYSABLE " + str(broken)) if broken else "")
+    hits = {pr: sorted(set(new)) for pr, (rc, new, known) in res.items() if new}
+    print(d, "DETECTED-BY" if hits else "missed", {k: v[:2] for k, v in hits.items()})
     sys.stdout.flush()
+    exp[d] = {"breaks": meta.get("property", d.split("-")[0]), "summary": meta.get("summary", ""),
+              "needs_to_manifest": meta.get("needs_to_manifest", ""), "detected_by": hits}
+if write:
+    json.dump(exp, open(os.path.join(base, "expectations.json"), "w"), indent=1, sort_keys=True)
+    lines = ["# Seeded changes", "",
+             "Written by independent sub-agents from the property text only; each was confirmed by me on /repo HEAD (tests pass with",
+             "the change, demonstration fails with it and passes without; see meta.json `verified_by_me`).", "",
+             "| id | breaks | detected by (property: first key) |", "|---|---|---|"]
+    for d, e in sorted(exp.items()):
+        det = "; ".join("%s: `%s`" % (k, v[0][:110]) for k, v in sorted(e["detected_by"].items())) or "**missed**"
+        lines.append("| %s | %s | %s |" % (d, e["breaks"], det))
+    open(os.path.join(base, "README.md"), "w").write("\n".join(lines) + "\n")
